@@ -286,6 +286,9 @@ def materialise_for(I, v, fty):
         return m
     if isinstance(v, (VList, VTuple)) and isinstance(fty, TSeq):
         return I.B.materialise_seq(I, v, fty)
+    if isinstance(v, VDict) and getattr(v, "sym", None) is None and isinstance(fty, TSeq) and fty.kind == "dict-items":
+        # a dict of known size where the shape speaks of its (key, value) items in insertion order
+        return I.B.materialise_seq(I, VList([VTuple([unkey(k), x]) for k, x in v.items.items()]), fty)
     if isinstance(v, VSet) and type(fty).__name__ == "TSet":
         from . import setsum
 
@@ -307,6 +310,12 @@ def setattr_(I, obj, name, v):
                 I.call(BoundMethod(obj, mem.setter, owner), [v], {})
                 return
             fty = ty.fields.get(name)
+            if fty is None and not ty.fields and isinstance(v, VDict) and getattr(v, "sym", None) is None and any(isinstance(k, (SymKey, tuple)) for k in v.items):
+                # an object built in this body (no shape of its own): a dict keyed by tuples takes the representation the sidecars' shape of
+                # this class declares for the attribute, so that a postcondition can speak about it
+                dty = TObj.declared_field(ty.cls.key, name)
+                if isinstance(dty, TSeq) and dty.kind == "dict-items":
+                    v = materialise_for(I, v, dty)
             v = materialise_for(I, v, fty)
             sv = ctx.to_val(v)
             if fty is not None and not isinstance(fty, TAny):
